@@ -1242,7 +1242,7 @@ func finish() {
 	run.Assume("a name whose own entry or whose alias target is hidden counts as hidden for listings")
 	run.Assume("recognition by a CA client entry is defined by standard path validation for the client-authentication usage against that entry's CA certificates alone (relic documents a CA entry as 'any certificate issued by this CA'; crypto/x509 Verify with KeyUsages=[ClientAuth], roots = the entry's bundle, intermediates = what the caller presented): a usage restriction in an issuing CA's own certificate binds every certificate issued below it, so a leaf below a serverAuth-only issuing CA is no client of the entry whatever the leaf itself says; the harness reference (path building by name and signature over the presented certificates, validity, cA/keyCertSign, no certificate of the path excluding clientAuth) is compared with crypto/x509 over every bundle x chain at start-up")
 	run.Assume("which texts are well-formed trusted-proxy entries (an IP address or a CIDR network) is a table in the harness, compared with net/netip at start-up (relic parses with net.ParseCIDR / net.ParseIP)")
-	run.Assume("a key naming no token or an undefined token is refused while the served tokens are being opened, in Go map order, so other tokens may already have been opened (and are closed again) when the error is returned: observed on the unchanged tree, order-dependent, recorded as an outcome and judged only with C04_TOKENREF_ORDER=1 (reported to the lead)")
+	run.Assume("a key naming no token or an undefined token must be refused before any token is opened like every other malformed entry (relic opened the tokens that came first in map order before noticing; repaired in 964574d); C04_TOKENREF_ORDER=0 turns this case into a tally")
 	run.Finish()
 }
 
@@ -1559,7 +1559,7 @@ func (mc malformedCase) yaml() string {
 // token has been opened.
 func malformed(dir string) {
 	checkProxyTable()
-	judgeOrder := os.Getenv("C04_TOKENREF_ORDER") != ""
+	judgeOrder := os.Getenv("C04_TOKENREF_ORDER") != "0"
 	yamlPath := filepath.Join(dir, "malformed.yml")
 	ncases := 0
 	for _, mc := range malformedCases() {
